@@ -192,6 +192,12 @@ def gen_sequence(rng, n):
                     sep = " " + sep + " "
             if sp in ("#", "%:", "##", "%:%:") and "\n" in sep and text.rstrip(" \t\f\v").endswith(("\n", "")):
                 sep = " "
+            # extensions beyond C11 the lexer has (see the assumptions): R"…" / LR"…" / uR"…" / UR"…" / u8R"…" raw strings and u8'c' -
+            # an identifier that IS such a prefix is kept apart from a following literal (a comment or splice between them does not
+            # separate them for the lexer's purposes either way: use a blank)
+            if (cls == "str" and toks[j - 1][1] == "ident" and prev in ("R", "LR", "uR", "UR", "u8R")) or (cls == "char" and toks[j - 1][1] == "ident" and prev == "u8"):
+                if not sep or not sep.strip(" \t\n") == "":
+                    sep = " "
             text += sep
         placed.append((sp, cls, len(text.encode())))
         text += sp
